@@ -14,6 +14,8 @@ PY = "/venv/bin/python"
 VERIF = os.path.dirname(os.path.dirname(os.path.abspath(__file__)))
 # fixes that a LATER fix made redundant (reverting them alone changes nothing any more): (property, sha) -> later commits
 SUBSUMED = {("C20", "7950822"): "9a278f0 96ce9e3"}
+# fixes whose lines a later fix rewrote (a plain reverse patch conflicts): (property, sha) -> later commits to revert first
+COMBINED = {("C19", "3ec13d7"): "0c87a7d", ("C20", "96ce9e3"): "9a278f0"}
 
 
 def sh(cmd, env=None, timeout=7200):
@@ -41,6 +43,12 @@ def main():
                 # later commits touched the same lines: fall back to a 3-way reverse patch
                 sh(f"git -C {wt} revert --abort; git -C {wt} checkout -q -- .")
                 rc, o = sh(f"git -C /repo show {sha} | git -C {wt} apply -R --3way")
+            if rc != 0 and (prop, sha) in COMBINED:
+                # a later fix rewrote the same lines: revert that one first, then this one
+                later = COMBINED[(prop, sha)]
+                sh(f"git -C {wt} checkout -q -- .")
+                rc, o = sh(f"git -C {wt} revert --no-commit {later} {sha}")
+                f = dict(f, what=f"[reverted together with the later fix {later}, which rewrote the same lines] " + f["what"])
             if rc != 0:
                 rows.append((prop, sha, "could not reverse-apply cleanly", "", f["what"][:90]))
                 continue
@@ -55,7 +63,7 @@ def main():
                 first = next((l.strip() for l in oc2.splitlines() if "violation class=" in l), "")
                 res = f"exit 1" if rc2 == 1 else f"exit {rcc}"
                 f = dict(f, what=f"[alone: exit 0, made redundant by the later fixes {later}; reverted together with them: exit {rc2}] " + f["what"])
-            rows.append((prop, sha, res, first[:160].replace("|", "/"), f["what"][:170].replace("|", "/")))
+            rows.append((prop, sha, res, first[:160].replace("|", "/"), f["what"][:200].replace("|", "/")))
             rcc = 1 if res == "exit 1" else rcc
             print(prop, sha, "exit", rcc, first[:140], flush=True)
         finally:
